@@ -84,8 +84,9 @@ def compute_pattern(
     n = max(y, x) * 2
     m = max(y, x) * 2
 
-    sx = slice(n // 2 - y // 2, n // 2 + y // 2)
-    sy = slice(m // 2 - x // 2, m // 2 + x // 2)
+    # Note: select exactly 'y' rows and 'x' columns (also for odd numbers)
+    sx = slice(n // 2 - y // 2, n // 2 - y // 2 + y)
+    sy = slice(m // 2 - x // 2, m // 2 - x // 2 + x)
 
     signal_lst: list[int] = square_signal(n=n, lw=period // 2, start_with=start_with)
     new_signal_lst: list[int] = signal_lst + ([1] * (n - len(signal_lst)))
